@@ -20,7 +20,8 @@ RULE = ("seeded random pipelines (depth 1-4 from the %d-entry operator catalog, 
         "sampled j from the subscribe action (= before any deferred subscription effect) to the action before the terminal one (quick <= 10 incl. first two and last; thorough <= 40), "
         "(b) from inside the subscriber's k-th on_next, (c) from inside the k-th call of an operator callback, "
         "(d) every fifth case: the subscription is made inside a CurrentThreadScheduler (trampoline) action over library "
-        "from_iterable sources and dispose() comes from inside the k-th on_next of the synchronous burst. One evaluation = "
+        "from_iterable sources and dispose() comes from inside the k-th on_next of the synchronous burst; another fifth of "
+        "the cases puts each callback-taking catalog entry in turn directly below the subscriber. One evaluation = "
         "one (case, dispose point). After dispose_ret: no notification at the disposed subscriber; no user-callback "
         "invocation (callbacks of stages up to the window/group operator are excused while a window/group probe that "
         "was live at the dispose is still subscribed; observed, not judged: callbacks made while an Observable.subscribe() "
@@ -31,7 +32,7 @@ RULE = ("seeded random pipelines (depth 1-4 from the %d-entry operator catalog, 
         "pipeline with arguments, dispose point)" % len(CATALOG))
 ASSUMPTIONS = ["TestScheduler / HistoricalScheduler are the clock (C28)", "probe sources are harness code and conforming here",
                "the run is cut at virtual time 600", "window/group probes still subscribed are unsubscribed at t=500"]
-CASES = {"quick": 400, "thorough": 16000}
+CASES = {"quick": 640, "thorough": 16000}
 REQUIRED = {"set:ops": len(CATALOG) - 12,
             "disposed_while_live": {"quick": 1500, "thorough": 60000},
             "variant_a_at_action": {"quick": 1200, "thorough": 50000},
@@ -53,10 +54,24 @@ def is_tramp(idx: int) -> bool:
     return idx % 5 == 4
 
 
+FOCUS = [e.name for e in CATALOG if "uses_callbacks" in e.flags and "sub_on" not in e.flags]
+
+
 def gen(seed: int, idx: int) -> tuple:
     r = case_rng(seed, ID, idx)
     depth = r.choice([1, 1, 2, 2, 3, 3, 4])
-    if is_tramp(idx):
+    if idx % 5 == 3:
+        # focus family: every callback-taking entry in turn sits directly below the subscriber (or one stage higher)
+        depth = r.choice([1, 1, 2])
+        name = FOCUS[(idx // 5 + seed * 7) % len(FOCUS)]
+        pos = depth - 1 if "flatten" not in P.BY_NAME[name].flags else 1
+        plan = {pos: name}
+        if "flatten" in P.BY_NAME[name].flags:
+            depth, plan[0] = 2, "nested"
+        elif depth == 2 and r.random() < 0.5:
+            plan = {0: name}
+        b = P.build(r, depth, clock="num", exclude=EXCLUDE, plan=plan, maxlen=6)
+    elif is_tramp(idx):
         b = P.build(r, depth, clock="num", exclude=EXCLUDE, explicit_sched=True, main_kind="iter",
                     kinds=("iter", "iter", "cold", "sync", "hot"),
                     term_policy={"main": lambda rr: rr.choice(["C", "C", None, "E"])}, maxlen=6)
@@ -233,9 +248,12 @@ def variants(seed: int, idx: int, keep: list | None, tier: str, full: bool = Fal
 
 
 def mech_of(b: P.Built, kept: list | None, variant: tuple, prob: tuple) -> str:
+    if prob[0] == "callback":
+        # the operator that made the late call is the mechanism, whatever else the (minimised) witness needs
+        p = next(p for p in b.g.callbacks if p.name == prob[2][3])
+        return "C03:%s:%s-after-dispose-%s" % (p.opname, p.role, VARIANT_NAME[variant[0]])
     opn = "+".join(sorted(set(b.opnames(kept)))) or "source-only"
-    what = {"recv": "recv", "leak": "leak", "late-sub": "late-sub"}.get(prob[0], prob[1])
-    return "C03:%s:%s-after-dispose-%s" % (opn, what, VARIANT_NAME[variant[0]])
+    return "C03:%s:%s-after-dispose-%s" % (opn, prob[0], VARIANT_NAME[variant[0]])
 
 
 def evaluate(seed: int, idx: int, keep: list | None, variant: tuple, res: UnitResult, tier: str, minimize: bool) -> None:
